@@ -130,7 +130,29 @@ pub enum Port {
     MetaMulti,
 }
 
+/// one receive socket of a node: a FIFO drained by a single task, like the receive thread of the real transport
+pub struct Sock {
+    pub q: RefCell<std::collections::VecDeque<Vec<u8>>>,
+    pub waker: RefCell<Option<std::task::Waker>>,
+    pub closed: std::cell::Cell<bool>,
+}
+struct SockRecv(Rc<Sock>);
+impl std::future::Future for SockRecv {
+    type Output = Option<Vec<u8>>;
+    fn poll(self: std::pin::Pin<&mut Self>, cx: &mut std::task::Context<'_>) -> std::task::Poll<Self::Output> {
+        if let Some(b) = self.0.q.borrow_mut().pop_front() {
+            return std::task::Poll::Ready(Some(b));
+        }
+        if self.0.closed.get() {
+            return std::task::Poll::Ready(None);
+        }
+        *self.0.waker.borrow_mut() = Some(cx.waker().clone());
+        std::task::Poll::Pending
+    }
+}
+
 pub struct Node {
+    pub socks: [Rc<Sock>; 3],
     pub id: usize,
     pub domain_id: i32,
     pub receiver: TransportDataReceiver,
@@ -478,7 +500,7 @@ pub fn arrival(id: u64) {
     let (now, step) = with_core(|c| (c.now, c.step));
     enum Todo {
         Nothing,
-        Deliver(TransportDataReceiver, Vec<u8>),
+        Deliver(Rc<Sock>, Vec<u8>),
         Emit(Vec<(u64, u64)>),
     }
     let todo = with_net(|net| {
@@ -512,7 +534,12 @@ pub fn arrival(id: u64) {
                 net.wire[a.rec].t_arr = Some(now);
                 net.wire[a.rec].delivered_step = Some(step);
                 net.bump("delivered");
-                Todo::Deliver(net.nodes[a.dst].receiver.clone(), a.bytes)
+                let port = match net.wire[a.rec].port {
+                    Port::MetaUni => 0,
+                    Port::UserUni => 1,
+                    Port::MetaMulti => 2,
+                };
+                Todo::Deliver(net.nodes[a.dst].socks[port].clone(), a.bytes)
             }
         }
     });
@@ -523,13 +550,17 @@ pub fn arrival(id: u64) {
                 c.schedule_net(t, id);
             }
         }),
-        Todo::Deliver(rx, bytes) => {
+        Todo::Deliver(sock, bytes) => {
             with_core(|c| {
                 c.fp.u64(0xD1);
                 c.fp.u64(id);
                 c.trace(|| format!("net arrival {} ({} bytes)", id, bytes.len()));
-                c.spawn_local(Class::Delivery, Box::pin(async move { rx.receive_message(bytes).await }));
             });
+            sock.q.borrow_mut().push_back(bytes);
+            let w = sock.waker.borrow_mut().take();
+            if let Some(w) = w {
+                w.wake();
+            }
         }
     }
 }
@@ -597,6 +628,12 @@ impl Drop for SimWriter {
             if let Ok(mut n) = n.try_borrow_mut() {
                 if let Some(n) = n.as_mut() {
                     n.nodes[node].open = false;
+                    for s in &n.nodes[node].socks {
+                        s.closed.set(true);
+                        if let Some(w) = s.waker.borrow_mut().take() {
+                            w.wake();
+                        }
+                    }
                 }
             }
         });
@@ -607,9 +644,24 @@ pub struct SimTransport;
 impl TransportParticipantFactory for SimTransport {
     fn create_participant(&self, domain_id: i32, data_receiver: TransportDataReceiver) -> RtpsTransportParticipant {
         let now = with_core(|c| c.now);
+        let socks: [Rc<Sock>; 3] = std::array::from_fn(|_| Rc::new(Sock { q: RefCell::new(Default::default()), waker: RefCell::new(None), closed: std::cell::Cell::new(false) }));
+        for s in &socks {
+            let s = s.clone();
+            let rx = data_receiver.clone();
+            with_core(|c| {
+                c.spawn_local(
+                    Class::Delivery,
+                    Box::pin(async move {
+                        while let Some(b) = SockRecv(s.clone()).await {
+                            rx.receive_message(b).await;
+                        }
+                    }),
+                );
+            });
+        }
         with_net(|net| {
             let id = net.nodes.len();
-            net.nodes.push(Node { id, domain_id, receiver: data_receiver, open: true, crashed: false, created_at: now });
+            net.nodes.push(Node { socks: socks.clone(), id, domain_id, receiver: data_receiver, open: true, crashed: false, created_at: now });
             RtpsTransportParticipant {
                 message_writer: Box::new(SimWriter { node: id }),
                 default_unicast_locator_list: vec![user_uni(id)],
